@@ -1104,3 +1104,30 @@ def b_scale_pairs(tier, rnd):
     return {"rule": "every ordered pair of the 17 scale classes on 4 related tonics x octave counts (1,1) (1,2) (2,2): "
                     "same class, relatives, and the classes that share one of their two lists (melodic minor / Bachian / "
                     "natural minor)", "cases": cases}
+
+
+@battery("midifile")
+def b_midifile(tier, rnd):
+    from mingus.midi.midi_file_out import MidiFile
+    from mingus.midi.midi_track import MidiTrack
+    from mingus.containers.note import Note
+
+    def track(kind):
+        t = MidiTrack()
+        if kind == "reset":
+            t.reset()
+        elif kind == "note":
+            t.play_Note(Note("C", 4))
+            t.set_deltatime(72)
+            t.stop_Note(Note("C", 4))
+        elif kind == "long":
+            for i in range(40):
+                t.play_Note(Note("E", 3))
+        return t
+    import itertools
+    cases = []
+    for k in range(0, 4):
+        for kinds in itertools.product(["reset", "fresh", "note", "long"], repeat=k):
+            cases.append((MidiFile([track(x) for x in kinds]),))
+    return {"rule": "files of 0..3 tracks, each reset (no data), fresh, one note or 40 events: all 85 combinations",
+            "cases": cases}
